@@ -405,7 +405,7 @@ func (w *worker) tcpStep(r Req, cz *Concretiser, nm Names) (*Concrete, *HTTPResp
 	case "tcp_pub":
 		line = "PUB " + topic
 	case "tcp_dpub":
-		sp := deferSpellings(r.Defer[0], cz.maxDefer, cz.rng)
+		sp := deferSpellings(r.Defer[0], cz.maxDefer, cz.rng, false)
 		if len(sp.canon) == 0 {
 			return nil, nil, fmt.Errorf("no canonical spelling for %q", r.Defer[0])
 		}
@@ -473,7 +473,7 @@ func (w *worker) runTwin(st Step, rng *rand.Rand) {
 	req := st.Req
 	normReq(&req)
 	w.d.wipe()
-	cz := &Concretiser{rng: rng, maxMsg: w.d.MaxMsg, maxBody: w.d.MaxBody, maxDefer: w.d.MaxDefer, canonical: true}
+	cz := &Concretiser{rng: rng, maxMsg: w.d.MaxMsg, maxBody: w.d.MaxBody, maxDefer: w.d.MaxDefer, canonical: true, longSmall: true}
 	validName := isSym(req.Topic[0], w.tsyms)
 	H, T := randValidName(rng, false), randValidName(rng, false)
 	for H == T {
